@@ -116,4 +116,30 @@ func init() {
 			return jobs
 		},
 	})
+	register(&PropSpec{
+		ID: "C02", Level: "exploration",
+		Rule:        "C01 histories with clean shutdown + reopen at generated positions, repeatedly; at every restart the closed directory is reopened once per index-file subset (all 2^k subsets when k <= 6 index files exist in thorough, otherwise none/all/each kind/singletons/random subsets) and every variant must read back as the reference map (bytes, flags, liveness; versions where the quantifier compares them); a restart is modelled as process exit at the instant Close returns (directory copied, copy opened by a fresh store instance). distinct = (present/removed index-file pattern) and (check point x residence x size x phase) tuples",
+		Assumptions: []string{"tombstone versions and tree-only version changes are adopted after a restart, as the property's quantifier states", "a restart inside one process on a copy of the directory is equivalent to a new process (global state is re-initialised by NewHStore); the crash-style variants of C06 use real fresh processes"},
+		Plan: func(tier string, seed uint64) []Job {
+			var jobs []Job
+			hist, ops, variants := 4, 45, "few"
+			if tier == "thorough" {
+				hist, ops, variants = 20, 120, "exhaustive"
+			}
+			for _, c := range limitServed(configsFor(tier, seed+2, 14, 64), 2, seed) {
+				jobs = append(jobs, Job{Variant: "plain", Mode: "db.c02", Args: js(map[string]interface{}{"Cfg": c, "Histories": hist, "NOps": ops, "MaxVal": 20000, "BigPct": 20, "MaintPct": 22, "Restart": true, "Variants": variants, "FullCheckEvery": 0})})
+			}
+			sched, nsched, nrace := 30, 3, 1
+			if tier == "thorough" {
+				sched, nsched, nrace = 150, 12, 4
+			}
+			for i := 0; i < nsched; i++ {
+				jobs = append(jobs, Job{Variant: "plain", Mode: "db.c02sched", Args: js(map[string]interface{}{"Cases": sched, "Cfg": StoreCfg{NumBucket: 1, TreeHeight: 3, BodyMax: 1 << 20, IndexInterval: 512, CheckVHash: i%2 == 1}})})
+			}
+			for i := 0; i < nrace; i++ {
+				jobs = append(jobs, Job{Variant: "race", Mode: "db.c02sched", Args: js(map[string]interface{}{"Cases": sched / 2, "Cfg": StoreCfg{NumBucket: 1, TreeHeight: 3, BodyMax: 1 << 20, IndexInterval: 512}})})
+			}
+			return jobs
+		},
+	})
 }
